@@ -39,7 +39,7 @@ def configs(thorough: bool) -> list:
         return [
             ("pairs", dict(fams=q(ALLFAMS), nsers="0,1,2,3", catsel="1,2,3,4,5,6,7,8,9", xysel="1,2,3,4,5,6,7,8", L=1, fmt="prefix", reopen="end",
                            rmod=2, corpussel=0)),
-            ("seqs", dict(fams=q(ALLFAMS), nsers="0,1,3", catsel="3,5,7", xysel="1,4,5", L=3, fmt="ends", reopen="any", rmod=4, corpussel=0)),
+            ("seqs", dict(fams=q(ALLFAMS), nsers="0,1,3", catsel="3,7", xysel="1,4,5", L=3, fmt="all", reopen="end", rmod=2, corpussel=0)),
             ("corpus", dict(fams='"corpus"', nsers="0,1,2,5", catsel="2,4,7", xysel="1,3,4,5", L=2, fmt="none", reopen="end", rmod=3, corpussel=0)),
         ]
     return [
@@ -92,30 +92,91 @@ def hkey(h) -> str:
     return json.dumps(h, sort_keys=True)
 
 
-def validate_all(table, trs, work, tag="obs"):
-    chunks, cur, n = [], [], 0
+def _chunk(args) -> dict:
+    """Worker: replay the histories of one chunk, write the trace file, let TLC validate it, classify the rejected steps."""
+    ci, jobs, shapes, ntab, work, keep, design = args
+    wdir = os.path.join(work, "c%d" % ci)
+    os.makedirs(wdir, exist_ok=True)
+    trs = []
+    for j in jobs:
+        t = CH.run_history(j)
+        t["fam"] = j["fam"]
+        if t["init"] is None:
+            t["init"] = EMPTY
+        trs.append(t)
+    table = [shapes.get(i + 1, {}) for i in range(ntab)]
+    path = os.path.join(wdir, "obs.json")
+    with open(path, "w") as f:
+        json.dump({"shapes": table, "traces": trs}, f, separators=(",", ":"))
+    r = E.run_tlc("Trace_ChartData", "Trace_ChartData.cfg", work=wdir, env={"TRACE_FILE": path}, workers=1, timeout=3000, heap="3g")
+    summ = r.printed("SUMMARY")
+    if not summ:
+        raise E.MachineryError("no SUMMARY from Trace_ChartData on chunk %d" % ci)
+    bad, drift = r.printed("VERDICT"), r.printed("DRIFT")
+    byid = {t["id"]: (t, j) for t, j in zip(trs, jobs)}
+    tot = collections.Counter({"traces": len(trs), "steps": summ[-1]["steps"], "rejected": summ[-1]["rejected"], "drift": summ[-1]["drift"]})
+    sigs: dict = {}
+    rejected = {}
+    for v in bad:
+        t, j = byid[v["id"]]
+        rejected[v["id"]] = {b["k"]: set(b["failing"]) for b in v["bad"]}
+        for b in v["bad"]:
+            k = b["k"]
+            st = t["steps"][k - 1]
+            s = t["init"] if k == 1 else t["steps"][k - 2]["t"]
+            shape = table[st["a"]["d"] - 1] if "d" in st["a"] else None
+            for clause in sorted(b["failing"]):
+                if clause == "FormatApplied":
+                    tot["fmt_broken"] += 1
+                    continue
+                cls = classify(clause, st["a"]["op"], s, st["t"], shape, t["gen"])
+                for c1 in (cls.split("+") if clause in ("XsdValid", "XsdKept") else [cls]):
+                    sig = "%s@%s[%s]" % (clause, OPNAME[st["a"]["op"]], c1)
+                    nload = len([a for a in j["h"] if a["op"] == "load"])
+                    h = j["h"][:nload + k]
+                    cost = len(json.dumps(h)) + sum(len(json.dumps(table[a["d"] - 1])) for a in h if "d" in a)
+                    cur = sigs.get(sig)
+                    if cur is None or cost < cur[1]:
+                        what = "%s %s: %s" % (j.get("type") or os.path.basename(j["corpus"][0]) + "#%d" % j["corpus"][1], v["id"], json.dumps(h)[:300])
+                        rp = {"module": "ChartData", "job": dict(j, h=h, shapes={str(a["d"]): table[a["d"] - 1] for a in h if "d" in a}, dkey=""),
+                              "table": [x if any(a.get("d") == i + 1 for a in h) else {} for i, x in enumerate(table)], "step": k,
+                              "failing": sorted(b["failing"]), "observed": st["t"], "before": s}
+                        sigs[sig] = (1 + (cur[0] if cur else 0), cost, rp, what)
+                    else:
+                        sigs[sig] = (cur[0] + 1,) + cur[1:]
+    refuted = []
+    for j in jobs:
+        want = design.get(j["id"])
+        if not want:
+            continue
+        k = len([a for a in j["h"] if a["op"] != "load"])
+        if set(want) <= rejected.get(j["id"], {}).get(k, set()):
+            tot["confirmed"] += 1
+        else:
+            tot["refuted"] += 1
+            refuted.append("%s at step %d of %s; the real library does not show it" % (want, k, j["id"]))
+    depth = 0
+    types = set()
     for t in trs:
-        cur.append(t)
-        n += sum(40 + sum(len(s["vals"]) + 6 for p in st["t"]["plots"] for s in p["sers"]) + sum(len(p["leaf"]) * 3 for p in st["t"]["plots"])
-                 for st in t["steps"])
-        if n > 250000:
-            chunks.append(cur)
-            cur, n = [], 0
-    if cur or not chunks:
-        chunks.append(cur)
-    bad, drift, tot = [], [], collections.Counter()
-
-    def run(ix_c):
-        ix, c = ix_c
-        used = {a["d"] for t in c for st in t["steps"] for a in [st["a"]] if "d" in a}
-        tab = [s if (i + 1) in used else {} for i, s in enumerate(table)]          # keep indices, ship only what is used
-        return E.validate("Trace_ChartData", {"shapes": tab, "traces": c}, work=work, name="%s%d" % (tag, ix), heap="5g", timeout=3000)
-    with cf.ThreadPoolExecutor(10) as ex:
-        for b, s, r in ex.map(run, list(enumerate(chunks))):
-            bad += b
-            drift += r.printed("DRIFT")
-            tot.update(s)
-    return bad, drift, dict(tot)
+        if t["gen"]:
+            types.add(t["type"])
+            if t["steps"] and not t["steps"][0]["t"]["raised"] and t["steps"][0]["t"]["ctype"] != t["type"]:
+                tot["tdiff"] += 1
+        else:
+            tot["op_load"] += 1
+        for k, st in enumerate(t["steps"]):
+            tot["op_" + st["a"]["op"]] += 1
+            for p in st["t"]["plots"]:
+                depth = max(depth, p["depth"])
+            if st["a"]["op"] == "replace" and not st["t"]["raised"]:
+                s = t["init"] if k == 0 else t["steps"][k - 1]["t"]
+                o, n = sum(len(p["sers"]) for p in s["plots"]), sum(len(p["sers"]) for p in st["t"]["plots"])
+                tot["grow"] += n > o
+                tot["shrink"] += n < o
+                tot["multi"] += len(s["plots"]) > 1
+                tot["emptied"] += not st["t"]["plots"]
+    return {"tot": dict(tot), "sigs": sigs, "refuted": refuted[:3], "depth": depth, "types": sorted(types),
+            "drift_ex": drift[0]["id"] if drift else None, "traces": trs if keep else None}
 
 
 def label_tokens(nodes) -> list:
@@ -222,15 +283,25 @@ def main() -> int:
                 jobs.append(dict(j, id=j["id"] + ":wide", h=hh, shapes=sh, dkey=""))
     phase["explore"] = round(time.time() - t_ph, 1)
     t_ph = time.time()
-    trs = E.pmap(CH.run_history, jobs, procs=16)
-    phase["drive"] = round(time.time() - t_ph, 1)
-    byid = {}
-    for t, j in zip(trs, jobs):
-        t["fam"] = j["fam"]
-        if t["init"] is None:
-            t["init"] = EMPTY
-        byid[t["id"]] = (t, j)
+    # ---- replay + validation, chunk by chunk in the worker processes (drive, write the trace file, TLC, classify)
+    order = sorted(range(len(jobs)), key=lambda k: (jobs[k]["id"].endswith(":wide"), k % 97))
+    per = 40 if replay else max(60, min(400, len(jobs) // 48))
+    chunks, cur, w = [], [], 0
+    for k in order:
+        cur.append(jobs[k])
+        w += 25 if jobs[k]["id"].endswith(":wide") else 1
+        if w >= per:
+            chunks.append(cur)
+            cur, w = [], 0
+    if cur:
+        chunks.append(cur)
+    args = [(ci, c, {a["d"]: table[a["d"] - 1] for j in c for a in j["h"] if "d" in a}, len(table), work, selftest and ci == 0,
+             {j["id"]: design[j["dkey"]] for j in c if design.get(j.get("dkey") or "")})
+            for ci, c in enumerate(chunks)]
+    outs = E.pmap(_chunk, args, procs=16, chunk=1)
+    phase["drive+validate"] = round(time.time() - t_ph, 1)
     if selftest:
+        trs = outs[0]["traces"]
         cand = next(t for t in trs if t["gen"] and len(t["steps"]) >= 3 and t["steps"][-1]["a"]["op"] == "replace"
                     and not t["steps"][-1]["t"]["raised"] and len(t["steps"][-1]["t"]["plots"]) == 1
                     and len(t["steps"][-1]["t"]["plots"][0]["sers"]) >= 2 and t["steps"][-1]["t"]["plots"][0]["sers"][0]["vals"]
@@ -247,101 +318,57 @@ def main() -> int:
         bad, _, _ = E.validate("Trace_ChartData", {"shapes": table, "traces": [cand, a, b, c]}, work=work, name="selftest")
         base_bad = {(x["k"], "+".join(sorted(x["failing"]))) for v in bad if v["id"] == cand["id"] for x in v["bad"]}
         got = {v["id"]: {(x["k"], "+".join(sorted(x["failing"]))) for x in v["bad"]} - base_bad for v in bad if v["id"] != cand["id"]}
-        okv = got.get("st:value") == {(k, "ValsAsGiven")} or any("ValsAsGiven" in f and kk == k for kk, f in got.get("st:value", ()))
+        okv = any("ValsAsGiven" in f and kk == k for kk, f in got.get("st:value", ()))
         okf = any("FmtSurvives" in f and kk == k for kk, f in got.get("st:fmt", ()))
         okd = any("NamesAsGiven" in f and kk == k for kk, f in got.get("st:dropped", ()))
         print("SELFTEST %s: corrupted a value, a format token, swapped an action -> %s" % ("ok" if okv and okf and okd else "FAILED",
                                                                                             {k_: sorted(v) for k_, v in got.items()}))
         if not (okv and okf and okd):
             raise E.MachineryError("selftest failed")
-    t_ph = time.time()
-    bad, drift, tot = validate_all(table, trs, work)
-    phase["validate"] = round(time.time() - t_ph, 1)
-    # ---- design-level counterexamples must be confirmed by the real traces of the same history (else: model error)
-    rejected = {}
-    for v in bad:
-        rejected[v["id"]] = {b["k"]: set(b["failing"]) for b in v["bad"]}
-    confirmed = refuted = 0
-    for j in jobs:
-        want = design.get(j.get("dkey") or "")
-        if not want:
-            continue
-        k = len([a for a in j["h"] if a["op"] != "load"])
-        if set(want) <= rejected.get(j["id"], {}).get(k, set()):
-            confirmed += 1
-        else:
-            refuted += 1
-            if refuted <= 3:
-                print("MODEL-ERROR: Impl layer predicts %s at step %d of %s, the real library does not show it" % (want, k, j["id"]), file=sys.stderr)
-    if refuted:
-        raise E.MachineryError("%d design-level counterexamples are not reproduced by the real library (Impl transcription out of date)" % refuted)
-    # ---- verdicts: one VIOLATION per narrow signature, the shortest history as the replay
+    # ---- merge
+    tot = collections.Counter()
     sigs: dict = {}
-    fmt_broken = 0
-    for v in bad:
-        t, j = byid[v["id"]]
-        for b in v["bad"]:
-            k = b["k"]
-            st = t["steps"][k - 1]
-            s = t["init"] if k == 1 else t["steps"][k - 2]["t"]
-            shape = table[st["a"]["d"] - 1] if "d" in st["a"] else None
-            for clause in sorted(b["failing"]):
-                if clause == "FormatApplied":
-                    fmt_broken += 1
-                    continue
-                cls = classify(clause, st["a"]["op"], s, st["t"], shape, t["gen"])
-                for c1 in (cls.split("+") if clause in ("XsdValid", "XsdKept") else [cls]):
-                    sig = "%s@%s[%s]" % (clause, OPNAME[st["a"]["op"]], c1)
-                    cost = len(json.dumps(j["h"])) + sum(len(json.dumps(x)) for x in j["shapes"].values())
-                    sigs.setdefault(sig, []).append((cost, v["id"], k))
-    if fmt_broken:
-        raise E.MachineryError("Format(i) did not change exactly the token of series i in %d steps (instrumentation broken)" % fmt_broken)
-    for sig, lst in sorted(sigs.items()):
-        lst.sort()
-        _, tid, k = lst[0]
-        t, j = byid[tid]
-        h = j["h"][:len([a for a in j["h"] if a["op"] == "load"]) + k]
-        what = "%d steps; e.g. %s %s: %s" % (len(lst), j.get("type") or os.path.basename(j["corpus"][0]) + "#%d" % j["corpus"][1], tid,
-                                             json.dumps([dict(a, data=None) if False else a for a in h])[:300])
-        rep.reject(sig, {"module": "ChartData", "job": dict(j, h=h, shapes={kk: vv for kk, vv in j["shapes"].items() if any(a.get("d") == int(kk) for a in h)}),
-                         "table": [s if any(a.get("d") == i + 1 for a in h) else {} for i, s in enumerate(table)],
-                         "step": k, "observed": t["steps"][k - 1]["t"], "before": (t["init"] if k == 1 else t["steps"][k - 2]["t"])}, what)
-    ndrift = sum(len(d["at"]) for d in drift)
+    types_seen, refuted_ex = set(), []
+    depth = 0
+    drift_ex = None
+    for o in outs:
+        tot.update(o["tot"])
+        types_seen |= set(o["types"])
+        depth = max(depth, o["depth"])
+        refuted_ex += o["refuted"]
+        drift_ex = drift_ex or o["drift_ex"]
+        for sig, (n, cost, rp, what) in o["sigs"].items():
+            cur = sigs.get(sig)
+            sigs[sig] = (n + (cur[0] if cur else 0),) + ((cost, rp, what) if cur is None or cost < cur[1] else cur[1:])
+    # design-level counterexamples must be confirmed by the real traces of the same history (else: model error)
+    if refuted_ex:
+        for x in refuted_ex[:3]:
+            print("MODEL-ERROR: Impl layer predicts %s" % x, file=sys.stderr)
+        raise E.MachineryError("%d design-level counterexamples are not reproduced by the real library (Impl transcription out of date)"
+                               % tot["refuted"])
+    if tot["fmt_broken"]:
+        raise E.MachineryError("Format(i) did not change exactly the token of series i in %d steps (instrumentation broken)" % tot["fmt_broken"])
+    for sig, (n, cost, rp, what) in sorted(sigs.items()):
+        rep.reject(sig, rp, "%d steps; e.g. %s" % (n, what))
+    ndrift = tot["drift"]
     if ndrift:
         rep.note("drift: %d observed steps differ from the Impl layer (idx/order/plots as coded); the property still judged them; e.g. %s"
-                 % (ndrift, drift[0]["id"]))
-    # excused by the statement itself (see ChartData!Applies): charts emptied by replace_data
-    emptied = sum(1 for t in trs for st in t["steps"] if st["a"]["op"] == "replace" and not st["t"]["raised"] and not st["t"]["plots"])
-    if emptied:
-        rep.note("%d replace_data calls with zero series removed every plot (as the statement says); schema validity and later growth of such a "
-                 "chart are not judged" % emptied)
-    tdiff = sum(1 for t in trs if t["gen"] and t["steps"] and not t["steps"][0]["t"]["raised"] and t["steps"][0]["t"]["ctype"] != t["type"])
-    if tdiff:
-        rep.note("%d generated charts report a chart_type different from the one asked for (not part of the statement)" % tdiff)
-    # ---- vacuity
-    ops = collections.Counter(st["a"]["op"] for t in trs for st in t["steps"])
-    ops["load"] = sum(1 for t in trs if not t["gen"])
-    grow = shrink = multi = 0
-    for t in trs:
-        for k, st in enumerate(t["steps"]):
-            if st["a"]["op"] == "replace" and not st["t"]["raised"]:
-                s = t["init"] if k == 0 else t["steps"][k - 1]["t"]
-                o, n = sum(len(p["sers"]) for p in s["plots"]), sum(len(p["sers"]) for p in st["t"]["plots"])
-                grow += n > o
-                shrink += n < o
-                multi += len(s["plots"]) > 1
-    depth = max([p["depth"] for t in trs for st in t["steps"] for p in st["t"]["plots"]] or [0])
-    types_seen = {t["type"] for t in trs if t["gen"]}
+                 % (ndrift, drift_ex))
+    if tot["emptied"]:
+        rep.note("%d replace_data calls with zero series removed every plot (as the statement says); schema validity and later calls on such a "
+                 "chart are not judged" % tot["emptied"])
+    if tot["tdiff"]:
+        rep.note("%d generated charts report a chart_type different from the one asked for (not part of the statement)" % tot["tdiff"])
+    ops = {o: tot["op_" + o] for o in ("add", "replace", "format", "reopen", "load")}
+    grow, shrink, multi, confirmed = tot["grow"], tot["shrink"], tot["multi"], tot["confirmed"]
     if not replay:
-        if any(not ops.get(o) for o in ("add", "replace", "format", "reopen", "load")) or not grow or not shrink or not multi or depth < 4 \
-                or len(types_seen) != 29:
-            raise E.MachineryError("vacuous: ops=%s grow=%d shrink=%d multi=%d depth=%d types=%d" % (dict(ops), grow, shrink, multi, depth,
-                                                                                                   len(types_seen)))
+        if any(not ops.get(o) for o in ops) or not grow or not shrink or not multi or depth < 4 or len(types_seen) != 29:
+            raise E.MachineryError("vacuous: ops=%s grow=%d shrink=%d multi=%d depth=%d types=%d" % (ops, grow, shrink, multi, depth, len(types_seen)))
     smp = [j["h"] for j in jobs if len(j["h"]) >= 4][:2] + [j["h"] for j in jobs if j["fam"] == "corpus" and len(j["h"]) >= 2][:1]
-    cov = {"states": max(states, 1), "transitions": max(trans, 1), "traces_validated_against_impl": len(trs),
-           "real_steps_validated": tot.get("steps", 0), "rejected_traces": tot.get("rejected", 0), "configs": info,
+    cov = {"states": max(states, 1), "transitions": max(trans, 1), "traces_validated_against_impl": tot["traces"],
+           "real_steps_validated": tot["steps"], "rejected_traces": tot["rejected"], "configs": info,
            "action_counts": dict(ops), "growing_replacements": grow, "shrinking_replacements": shrink, "replacements_on_multi_plot_charts": multi,
-           "chart_types_replayed": len(types_seen), "corpus_charts": sum(1 for t in trs if not t["gen"] and len(t["steps"]) >= 1),
+           "chart_types_replayed": len(types_seen), "corpus_histories": ops["load"], "widened_histories": sum(1 for j in jobs if j["id"].endswith(":wide")),
            "design_counterexamples_confirmed": confirmed, "drift_steps": ndrift, "max_category_depth_read": depth, "shapes": len(table), "phase_wall_s": phase,
            "samples": [{"history": h, "data_of_first_action": table[h[0]["d"] - 1] if "d" in h[0] else None} for h in smp],
            "exhaustive": True,
